@@ -1,4 +1,4 @@
-package c17
+package httpcheck
 
 import (
 	"context"
@@ -6,7 +6,6 @@ import (
 	"math"
 	"strconv"
 	"strings"
-	"testing"
 
 	"github.com/cloudwego/dynamicgo/conv"
 	"github.com/cloudwego/dynamicgo/conv/t2j"
@@ -323,16 +322,17 @@ func keysOf[T any](m map[string]T) []string {
 	return out
 }
 
-var RespProp = pbt.Register(pbt.Prop[RespCase]{
-	Name: "TestResponseMapping",
-	Rule: "generated response structs (scalar, list, map fields with lists of targets: api.header/cookie/http_code/raw_body, optionally preceded by annotations that cannot take a response value (api.query/path/form) and followed by api.body; keys shared between fields; nested structs: the level directly below the response is mapped as well, deeper levels go to the body) + conforming messages (empty strings, all present/absent subsets) x OmitHttpMappingErrors x WriteHttpValueFallback; a recording ResponseSetter captures the calls; model: each present annotated field goes to its first target that accepts it (text form for scalars, JSON for containers) and is absent from the JSON body; a failing target is an error unless errors are omitted; undeliverable fields go to the body only under WriteHttpValueFallback; the JSON body must denote exactly the remaining fields; non-trivial = at least one delivery or a demanded error",
-	Gen: func(t *rapid.T) RespCase {
-		u := genRespSchema(t)
-		cfg := tm.GenCfg{MaxDepth: 3, ValidUTF8: true, FiniteDoubles: true}
-		v := tm.GenValue(t, u, u.Root, cfg)
-		return RespCase{U: u, V: v, Omit: rapid.Bool().Draw(t, "omit"), Fallback: rapid.Bool().Draw(t, "fallback")}
-	},
-	Check: checkResp,
-})
-
-func TestResponseMapping(t *testing.T) { pbt.Run(t, RespProp) }
+// RespProp returns the (unregistered) response-mapping property under the given test name.
+func RespProp(name string) pbt.Prop[RespCase] {
+	return pbt.Prop[RespCase]{
+		Name: name,
+		Rule: "generated response structs (scalar, list, map fields with lists of targets: api.header/cookie/http_code/raw_body, optionally preceded by annotations that cannot take a response value (api.query/path/form) and followed by api.body; keys shared between fields; nested structs: the level directly below the response is mapped as well, deeper levels go to the body) + conforming messages (empty strings, all present/absent subsets) x OmitHttpMappingErrors x WriteHttpValueFallback; a recording ResponseSetter captures the calls; model: each present annotated field goes to its first target that accepts it (text form for scalars, JSON for containers) and is absent from the JSON body; a failing target is an error unless errors are omitted; undeliverable fields go to the body only under WriteHttpValueFallback; the JSON body must denote exactly the remaining fields; non-trivial = at least one delivery or a demanded error",
+		Gen: func(t *rapid.T) RespCase {
+			u := genRespSchema(t)
+			cfg := tm.GenCfg{MaxDepth: 3, ValidUTF8: true, FiniteDoubles: true}
+			v := tm.GenValue(t, u, u.Root, cfg)
+			return RespCase{U: u, V: v, Omit: rapid.Bool().Draw(t, "omit"), Fallback: rapid.Bool().Draw(t, "fallback")}
+		},
+		Check: checkResp,
+	}
+}
